@@ -170,6 +170,16 @@ func (ex *Exec) pointAsserts(fr *Frame, st *State, callee string, ord int, fname
 	if !fr.top || fr.contract == nil {
 		return
 	}
+	defer func() {
+		for j, ps := range fr.contract.PointSets {
+			if ps.Callee != callee || (ps.Ord > 0 && ps.Ord != ord) {
+				continue
+			}
+			ex.pointSetHit[j] = true
+			env := ex.frameEnv(fr, st, fr.entry)
+			ex.applyGhostSets(st, &FuncContract{Key: fr.contract.Key, GhostSets: []GhostSet{ps.Set}}, env)
+		}
+	}()
 	for j, pa := range fr.contract.Asserts {
 		if pa.Callee != callee || (pa.Ord > 0 && pa.Ord != ord) {
 			continue
@@ -547,6 +557,10 @@ func (ex *Exec) invoke(fr *Frame, st *State, c *ssa.CallCommon, recv Value, args
 			names = append(names, n)
 		}
 		return ex.applyContract(fr, st, ic, names, sig, all, fmt.Sprintf("%s#%d", callee, ord), fname, in)
+	}
+	if mname == "(context.Context).Err" || mname == "(context.Context).Done" {
+		// cancellation can arrive at any moment: every poll is a fresh observation (writes nothing)
+		return ex.freshResults(st, sig, "ctx."+c.Method.Name())
 	}
 	if ex.eng.pureInvoke(c) {
 		rt := resultType(sig)
